@@ -14,7 +14,7 @@ import ast
 
 from ..cfg import known_falsy
 from ..model import self_attr, unparse, walk_body_shallow
-from .util import (aliases_of, call_edges, chains_in, call_name, call_recv, calls_in, need, node_assign_value, node_writes_attr,
+from .util import (case_reach, aliases_of, call_edges, chains_in, call_name, call_recv, calls_in, need, node_assign_value, node_writes_attr,
                    norm, registrations, where)
 
 TECHNIQUE = "handle discovery + teardown exhaustiveness, stop-cancel guard dominance in failure handlers, entry-point " \
@@ -82,6 +82,13 @@ def discover_handles(prog, ci):
                     v = n.args[0]
                     if _is_handle_value(v) or (isinstance(v, ast.Name) and local_kinds.get(v.id)):
                         handles[a] = "list"
+        # a handle kept through a local: `d = self.client.send_x(...)` ... `self._req = d`
+        for n in walk_body_shallow(f.body):
+            if isinstance(n, ast.Assign) and isinstance(n.value, ast.Name) and local_kinds.get(n.value.id):
+                for t in n.targets:
+                    a = self_attr(t)
+                    if a:
+                        handles[a] = local_kinds[n.value.id]
         # second pass for appends of locals defined later in source order
         for n in walk_body_shallow(f.body):
             if isinstance(n, ast.Call) and call_name(n) == "append" and isinstance(n.func.value, ast.Attribute):
@@ -111,6 +118,8 @@ def methods_returning_handle(prog, ci, handles):
                         for t2 in n.targets:
                             if isinstance(t2, ast.Name):
                                 stored[t2.id] = a
+                        if isinstance(n.value, ast.Name):
+                            stored[n.value.id] = a
         for n in walk_body_shallow(f.body):
             if isinstance(n, ast.Return) and isinstance(n.value, ast.Name) and n.value.id in stored:
                 out[f.name] = stored[n.value.id]
@@ -230,6 +239,7 @@ def run(ctx):
                             (nm in ("_retry_fetch", "_do_fetch", "_send_commit_request") and rc == "self"):
                         sinks.append((n, c))
             bad = []
+            anc_ = {"CancelledError": {"CancelledError", "Exception"}}
             for n, c in sinks:
                 facts = fh[n.id]
                 ok = any(a in facts for a in accept)
@@ -237,6 +247,9 @@ def run(ctx):
                 for t, pol in facts:
                     if pol and t.startswith("%s.check(" % p) and "CancelledError" not in t:
                         ok = True
+                if not ok:
+                    # path-sensitive: with stopping set and a CancelledError in hand the sink is unreachable
+                    ok = not case_reach(ch, p, "CancelledError", anc_, True, {n.id})
                 if not ok:
                     bad.append(norm(c, 60))
             r.check(not bad, "%s#on-failure-of(%s)" % (h.qname, on),
